@@ -143,6 +143,10 @@ def first_order_match(pat, t, inst=None):
                             pat.head.T.match_incr(t.fun.get_type(), inst.tyinst)
                         except TypeMatchException:
                             raise MatchException(trace)
+                        # The instantiation cannot mention the variables that
+                        # stand for bound variables of enclosing abstractions.
+                        if bd_vars and t.fun.has_vars(bd_vars):
+                            raise MatchException(trace)
                         inst[pat.head.name] = t.fun
                         match(pat.arg, t.arg)
                     else:
@@ -230,6 +234,10 @@ def first_order_match(pat, t, inst=None):
                 inst.abs_name_inst[pat.var_name] = t.var_name
 
                 var_names = [v.name for v in pat.body.get_vars() + t.body.get_vars()]
+                # The new variable must also differ from the variables of the
+                # terms already assigned to schematic variables.
+                for inst_t in inst.values():
+                    var_names.extend(v.name for v in inst_t.get_vars())
                 nm = name.get_variant_name(pat.var_name, var_names)
                 v = Var(nm, T)
                 pat_body = pat.subst_type(inst.tyinst).subst_bound(v)
